@@ -33,6 +33,8 @@ def trees():
         L(11, "c"),
         R("VValidated", {"v": 1, "note": "ok"}, "a", kid=R("VValidated", {"v": 2}, kid=L(12))),
         R("VMany", {}, "b", items=(R("VReq", {}, "a", child=L(13)), R("VOne", {}, "xml", one=L(14)), L(15, "c"))),
+        # property values that serialization passes through by reference: containers inside an Any-typed property
+        R("VReq", {}, "a", child=R("VTyped", {"a": {"k": (1, 2), "inner": {"t": (3, (4,))}, "l": [5, (6,)]}, "t": (7, 8)})),
     ]
 
 
@@ -193,14 +195,14 @@ def _snapshot(nodes: dict[int, Any]) -> dict[int, tuple]:
     return out
 
 
-def make_harness(K: int, first_op: str | None):
+def make_harness(K: int, first_op: str | None, trees: list[int] | None = None):
     def harness(e):
         reset_all()
         ops = _ops()
         names = list(ops)
         # thorough: the third operation comes from the operations that create, unregister or re-create nodes
-        THIRD = [n for n in names if n.startswith(("transform", "duplicate", "replace", "dataclasses", "detach", "roundtrip", "as_obj", "from_json", "eq", "rich", "tree-queries", "findall"))]
-        tno = e.choice(len(TREES), "tree")
+        THIRD = [n for n in names if n.startswith(("transform", "duplicate", "replace", "dataclasses", "detach", "roundtrip", "as_obj", "from_json", "eq", "rich", "tree-queries", "findall", "merge_origins", "concat_origins", "origin-add"))]
+        tno = e.pick(trees, "tree") if trees else e.choice(len(TREES), "tree")
         root = build(TREES[tno])
         paths = positions_of(TREES[tno])
         existing: dict[int, Any] = {}
@@ -211,7 +213,7 @@ def make_harness(K: int, first_op: str | None):
         history: list[str] = []
         scenario: dict[str, Any] = {"tree": describe(TREES[tno]), "history": history}
         for step in range(K):
-            pool = names if (K < 3 or step < 2) else THIRD
+            pool = names if (K < 3 or step < 1) else THIRD
             op = first_op if (step == 0 and first_op) else e.pick(pool, f"op{step}")
             p = paths[e.choice(len(paths), f"target{step}")]
             node = node_at(root, p)
@@ -261,12 +263,17 @@ def frozen_harness(e):
 def spec(tier: str, seed: int) -> Spec:
     K = 2 if tier == "quick" else 3
     names = list(_ops())
-    fams = [Family(f"K{K}-first-{op}", make_harness(K, op), variables="selectors: tree, operation and target node per step") for op in names]
+    fams = [Family(f"K2-first-{op}", make_harness(2, op), variables="selectors: tree, operation and target node per step") for op in names]
+    if K == 3:
+        # histories of 3 on three of the trees (multi-origin root, validated class, mixed fields);
+        # the second and third operation come from the operations that create, unregister,
+        # re-create or compare nodes
+        fams += [Family(f"K3-first-{op}", make_harness(3, op, [0, 1, 5]), variables="selectors: tree, operation and target node per step") for op in names]
     fams.append(Family("frozen", frozen_harness, variables="selectors: class, field, setattr/delattr"))
     return Spec(
         families=fams,
         functions=FUNCTIONS,
-        bounds={"history_length": f"{K} (thorough: the third operation from the node-creating / unregistering / comparing operations)" if K == 3 else K, "operations": names, "trees": len(TREES), "classes_for_setattr": len(CLASSES)},
+        bounds={"history_length": "2 on all trees; 3 on trees 0, 1, 5 with the second and third operation from the node-creating / unregistering / comparing operations" if K == 3 else K, "operations": names, "trees": len(TREES), "classes_for_setattr": len(CLASSES)},
         rule="a case = (tree, K operations each with a target node); after every operation every pre-existing node (including nodes created by earlier operations) is compared with its snapshot; distinct by (tree, history)",
         variables="selectors only (bounded exploration of operation histories)",
         assumptions=["registry membership is excluded from the frame, as the statement allows"],
